@@ -559,6 +559,9 @@ pub enum Cand {
     G2Untwisted { k: String },
     G2YPlus1 { k: String },
     G2XPlus1 { k: String },
+    /// (lam^2 x, lam^3 y) of k*P2: a point of order r on the other curve y^2 = x^3 + lam^6 b
+    /// (the group law never uses b, so only the curve-equation test can reject it)
+    G2Scaled { k: String, lam: String },
     /// arbitrary coordinates
     G2Junk { x: String, y: String },
     G1On { k: String, negate: bool },
@@ -584,6 +587,7 @@ impl Cand {
             Cand::G2Untwisted { .. } => "g2_untwisted",
             Cand::G2YPlus1 { .. } => "g2_y_plus_1",
             Cand::G2XPlus1 { .. } => "g2_x_plus_1",
+            Cand::G2Scaled { .. } => "g2_scaled_other_curve",
             Cand::G2Junk { .. } => "g2_junk",
             Cand::G1On { .. } => "g1_on_curve",
             Cand::G1YPlus1 { .. } => "g1_y_plus_1",
@@ -673,6 +677,19 @@ fn build_g2(c: &Cand) -> Option<((Q2, Q2), bool)> {
             let x = p.0.add(&Q2::one());
             let ok = model::on_curve(&x, &p.1) && pmul(&Some((x.clone(), p.1.clone())), r).is_none();
             Some(((x, p.1), ok))
+        }
+        Cand::G2Scaled { k, lam } => {
+            let k = from_be(&unhex(k)) % r;
+            let p = small_mul(&g2, &k)?;
+            let l = q2_seed(lam);
+            if l.is_zero() {
+                return None;
+            }
+            let l2 = l.sqr();
+            let x = p.0.mul(&l2);
+            let y = p.1.mul(&l2.mul(&l));
+            let ok = model::on_curve(&x, &y) && pmul(&Some((x.clone(), y.clone())), r).is_none();
+            Some(((x, y), ok))
         }
         Cand::G2Junk { x, y } => {
             let x = q2_seed(x);
@@ -874,7 +891,20 @@ pub fn generate9(seed: u64, index: u64) -> Wire9Spec {
             6 => Cand::G2Untwisted { k: hk(&mut pr) },
             7 => Cand::G2YPlus1 { k: hk(&mut pr) },
             8 => Cand::G2XPlus1 { k: hk(&mut pr) },
-            9 => Cand::G2Junk { x: hex(&pr.bytes(64)), y: hex(&pr.bytes(64)) },
+            9 => {
+                if pr.chance(1, 2) {
+                    Cand::G2Junk { x: hex(&pr.bytes(64)), y: hex(&pr.bytes(64)) }
+                } else {
+                    let mut lam = pr.bytes(64);
+                    if pr.chance(1, 3) {
+                        // real lambda (imaginary half zero)
+                        for b in lam[..32].iter_mut() {
+                            *b = 0;
+                        }
+                    }
+                    Cand::G2Scaled { k: hk(&mut pr), lam: hex(&lam) }
+                }
+            }
             10 | 11 => Cand::G1On { k: hk(&mut pr), negate: pr.chance(1, 2) },
             12 => Cand::G1YPlus1 { k: hk(&mut pr) },
             13 => Cand::G1XPlus1 { k: hk(&mut pr) },
